@@ -27,12 +27,18 @@ func (b *batch) Put(key, value []byte) error {
 	copied := make([]byte, len(value))
 	copy(copied, value)
 
-	b.writeOps = append(b.writeOps, writeOp{key: key, value: copied})
+	keyCopy := make([]byte, len(key))
+	copy(keyCopy, key)
+
+	b.writeOps = append(b.writeOps, writeOp{key: keyCopy, value: copied})
 	return nil
 }
 
 func (b *batch) Delete(key []byte) error {
-	b.writeOps = append(b.writeOps, writeOp{isDelete: true, key: key})
+	keyCopy := make([]byte, len(key))
+	copy(keyCopy, key)
+
+	b.writeOps = append(b.writeOps, writeOp{isDelete: true, key: keyCopy})
 	return nil
 }
 
